@@ -28,7 +28,8 @@ MANIFEST = dict(
     category="model_checking",
     technique="TLA+ spec PoolRun (engine/pool/await-loop/instance state machine under a fault-plan catalogue) model-checked with TLC "
               "(safety exhaustively, liveness under fairness, negative controls) + TLC trace validation of real engine runs recorded "
-              "through scripted mocks and verif hooks for every fault plan TLC prints",
+              "through scripted mocks and verif hooks for every fault plan TLC prints, and of the engine runs made by pandora's own "
+              "test binaries (hook file sink, most general environment)",
     design_ref="DESIGN.md §4 C05",
     text=("PoolRun.tla is an implementation-shaped model of core/engine/engine.go: Engine.Run's pool goroutines and 1-buffered runRes "
           "channel, instancePool.Run (warm-up, runAsync, final select, deferred cancel), startInstances (first instance synchronous, later "
@@ -37,14 +38,20 @@ MANIFEST = dict(
           "recovered shot panic and gun Close. Which component fails where is a fault plan from a catalogue that is a CONSTANT of the spec "
           "(provider before first ammo/mid-run/at the very end, aggregator at once/drop error on cancel, warm-up, gun factory call j, Bind of "
           "instance j, schedule factory (per instance / shared), shot panic, user cancel at any step, 1 or 2 pools; and which error VALUE the "
-          "failing component returns: plain, wrapped, DeadlineExceeded / Canceled of its own context, the run ctx's own error late). TLC checks Outcome, Cause, "
+          "failing component returns: plain, wrapped, DeadlineExceeded / Canceled of its own context, the run ctx's own error late; a component call "
+          "that does not return before Run has returned - gun factory / WarmUp / schedule factory / Bind / a shot - with the caller's cancel issued "
+          "while the mock is inside). TLC checks Outcome, Cause, "
           "GunsClosed, WaitDoneOnce, no deadlock (= nothing hangs), Termination and CancelPrompt (liveness), and must find counterexamples in "
           "the variants that model the two shipped defects and two mutants. The same catalogue, printed by TLC, drives the REAL engine with "
           "scripted mocks and seeded schedule jitter; TracePoolRun.tla accepts a recorded run only if it is a behaviour of PoolRun.tla that "
-          "ends with the observed Run result, Wait returned, no mock Run/Shoot active and no goroutine left. This is the right level: the "
+          "ends with the observed Run result, Wait returned, no mock Run/Shoot active and no goroutine left. The engine runs of the repository's "
+          "own tests (go test -tags verif ./core/engine, thorough: ./tests/acceptance; every leaf test in its own process, seeded jitter) are "
+          "recorded by a tag-only file sink and validated by TracePoolRunHooks.tla, which re-uses the same engine actions with the most general "
+          "environment in place of the scripted components. This is the right level: the "
           "property quantifies over fault positions and over the orders in which the await loop sees its results, which is what a model "
           "checker enumerates and what hand-ordered unit tests cannot."),
-    note=("Bounds: <= 2 instances, <= 2 tokens, <= 3 ammo, one fault per pool + one cancel, <= 2 pools; quick tier explores the no-cancel "
+    note=("Bounds: <= 2 instances (3 in the thorough tier and for repository-test traces), <= 2 tokens, <= 3 ammo, one fault per pool + one cancel, "
+          "<= 2 pools (3 in Engine.tla); repository-test traces: hook events only, prefix-closed safety; quick tier explores the no-cancel "
           "plans exhaustively, thorough adds cancel-at-any-step plans and two pools; liveness on representative plan subsets. Real-run "
           "termination is observed with a watchdog (10 s, confirmed twice). Not decided: a user cancel racing with the very end of a run "
           "may still hide a late component error (stated exemption cancelAtRet); providers that never honour cancel. Trusted: mocks/recorder, "
@@ -59,7 +66,9 @@ NEGATIVE = [  # (cfg, expected kind, expected name)
     ("PoolRun_neg_panicnil.cfg", "invariant", "Outcome"),
     ("PoolRun_neg_isctx.cfg", "invariant", "Outcome"),
     ("PoolRun_neg_callerctx.cfg", "invariant", "StopAfterReturn"),  # pools run on the caller's ctx: Run's deferred cancel misses them
-    ("PoolRun_neg_callerctx_live.cfg", "temporal", ""),             # ... and a healthy long pool never stops, Wait never returns         # IsCtxError accepting any context-kind cause once ctx is done
+    ("PoolRun_neg_callerctx_live.cfg", "temporal", ""),             # ... and a healthy long pool never stops, Wait never returns
+    ("PoolRun_neg_noengselect.cfg", "invariant", "CancelPrompt"),   # Engine.Run without its own `case <-ctx.Done()`: stuck behind a blocked warm-up (seeded C05-7)
+    ("PoolRun_neg_noengselect_live.cfg", "temporal", ""),           # ... as a liveness counterexample (only Engine.Run fair)
 ]
 
 
@@ -103,7 +112,8 @@ def validate(v, rows, plans, d, workers=None, report=True, module="TracePoolRun"
     for r_ in rows:
         byrun.setdefault(r_["run"], []).append(r_)
     path = os.path.join(d, "%s_%d.ndjson" % (module, len(rows)))
-    vlib.write_ndjson(path, rows)
+    # the lines of a run are contiguous for the trace spec (a run abandoned after a confirmed hang may still write lines later)
+    vlib.write_ndjson(path, [e for k in sorted(byrun) for e in byrun[k]])
     tr = vlib.tlc(module, (cfg or module) + ".cfg", env={"VERIF_TRACE": path}, workers=workers, deadlock=False,
                   timeout=2400, heap="8g")
     if tr.error:
@@ -201,7 +211,7 @@ def run(tier, v):
     t0 = time.time()
     # ---- 1. design level; TLC also prints the fault-plan catalogue --------------------------------
     main_cfg = "PoolRun_thorough.cfg" if thorough else "PoolRun_quick.cfg"
-    pool = ThreadPoolExecutor(max_workers=6)
+    pool = ThreadPoolExecutor(max_workers=8)
     f_main = pool.submit(vlib.tlc, "PoolRunPlans", main_cfg, None, max(4, ncpu // 2), 3000, heap="16g" if thorough else "6g")
     f_build = pool.submit(vlib.harness_build)
 
@@ -221,17 +231,21 @@ def run(tier, v):
     def live():
         res = []
         cfgs = ["PoolRun_live.cfg", "PoolRun_livec.cfg", "PoolRun_prompt.cfg", "PoolRun_exh2q.cfg", "PoolRun_long.cfg",
-                "PoolRun_livelong.cfg"] if thorough else ["PoolRun_liveq.cfg", "PoolRun_promptq.cfg", "PoolRun_longq.cfg"]
+                "PoolRun_livelong.cfg", "PoolRun_block.cfg", "PoolRun_liveblock.cfg"] if thorough else \
+            ["PoolRun_liveq.cfg", "PoolRun_promptq.cfg", "PoolRun_longq.cfg", "PoolRun_blockq.cfg"]
         for cfg in cfgs:
             r = fix_temporal(vlib.tlc("PoolRunMC", cfg, workers=max(2, ncpu // 4), timeout=3000,
-                                      deadlock=cfg.startswith(("PoolRun_exh", "PoolRun_long")), heap="12g" if thorough else "4g"))
+                                      deadlock=cfg.startswith(("PoolRun_exh", "PoolRun_long", "PoolRun_block")), heap="12g" if thorough else "4g"))
             vlib.log("   (%s)" % cfg)
             vlib.tlc_must_pass(r, cfg)
             res.append((cfg, r))
         return res
 
     import c05_engine
+    import c05_repo
     f_eng = pool.submit(c05_engine.design, thorough, fix_temporal)
+    # the repository's OWN tests, recorded through the hook file sink, validated by TracePoolRunHooks.tla (see c05_repo.py)
+    f_repo = pool.submit(c05_repo.bind, tier, v)
     def three():
         """growth: three instances with a startup schedule (MaxN = 3), thorough tier only"""
         r3 = fix_temporal(vlib.tlc("PoolRunPlans", "PoolRun_n3.cfg", workers=max(4, ncpu // 2), timeout=3000, heap="12g"))
@@ -330,6 +344,10 @@ def run(tier, v):
         cov["states"] += three_cov["three_instances_states"]
         cov["transitions"] += three_cov["three_instances_transitions"]
         cov["traces_validated_against_impl"] += three_cov["three_instances_traces_validated"]
+    repo_cov = f_repo.result()
+    cov["repo_tests"] = repo_cov
+    cov["repo_test_traces"] = repo_cov["repo_test_traces"]
+    cov["traces_validated_against_impl"] += repo_cov["repo_test_traces_validated"]
     cov["states"] += eng["states"]
     cov["transitions"] += eng["transitions"]
     cov["traces_validated_against_impl"] += engb["engine_traces_validated"]
@@ -343,11 +361,20 @@ def run(tier, v):
         "suppressed after the cancel (the spec states this exemption explicitly: cancelAtRet)",
         "trusted: the scripted mocks and recorder (harness/cmd/vdrive/poolrun.go), the placement of the verif hooks in core/engine "
         "(each cancelling step is logged before its cancel() call), TLC",
+        "repository's own tests (go test -tags verif, hook file sink): hook events only, the tests' components are the most general "
+        "environment of PoolRun.tla; acceptance is prefix-closed safety (a test process may end before its background goroutines); "
+        "which tests can cancel the caller's context is a reviewed list (checks/c05_repo.py, unknown tests: may cancel); a failing "
+        "repository test is noted, never a verdict",
     ]
 
 
 def replay(path, v):
     obj = json.load(open(path))
+    if obj.get("kind") == "repo-trace":
+        import c05_repo
+        vlib.spec_copy()
+        c05_repo.replay(obj, v)
+        return None
     d = vlib.scratch()
     evs = obj["events"]
     acc, n, _, rej = validate(v, evs, [obj["plan"]], d, workers=1, module=obj.get("module", "TracePoolRun"), cfg=obj.get("cfg"))
